@@ -100,7 +100,9 @@ trait CharExt: Sized {
 
 impl CharExt for char {
     fn has_casing(self) -> bool {
-        self.is_lowercase() != self.is_uppercase()
+        // Title case letters like `ǅ` are neither lowercase nor uppercase, but have casing.
+        (self.is_lowercase() != self.is_uppercase())
+            || !self.to_lowercase().eq(self.to_uppercase())
     }
 }
 
